@@ -251,6 +251,8 @@ class Session:
             name = self._names[idx] if idx >= 0 else "?"
             self.last_handler = name
             hid = model_handler_id(name)
+            if hid == 26 and proc.arg is not None:
+                hid = 38            # HViOperatorInNav with event.arg_present
             pre = None
             if hid is not None:
                 pre = self.model_state()
@@ -307,7 +309,19 @@ class Session:
         d = self.session.default_buffer
         vs = app.vi_state
         sel = b.selection_state
+        others = []
+        if getattr(self, "_all_buffers", None) is None:
+            # the layout of a prompt is static: collect its buffers once per session
+            from prompt_toolkit.layout.controls import BufferControl
+            self._all_buffers = []
+            for c in app.layout.find_all_controls():
+                if isinstance(c, BufferControl) and all(c.buffer is not x for x in self._all_buffers):
+                    self._all_buffers.append(c.buffer)
+        for ob in self._all_buffers:
+            if ob is not b:
+                others.append((ob.name, ob.text, ob.cursor_position, ob.selection_state is not None))
         return {
+            "others": others,
             "buf": b.name, "text": b.text, "cur": b.cursor_position,
             "sel": None if sel is None else [sel.original_cursor_position, sel.type.value],
             "mc": list(b.multiple_cursor_positions),
@@ -430,16 +444,20 @@ def oracle_state(o):
     if o["editing"] == "VI" and o["mode"] == "vi-insert-multiple":
         if any(not (0 <= p <= n) for p in o["mc"]):
             bad.append(("multiple-cursor positions %r outside 0..%d" % (o["mc"], n), "multicursor-range"))
-    # Vi navigation mode, at rest: not past the last character of a non-empty line
+    # Vi navigation mode, at rest: not past the last character of a non-empty line,
+    # in the focused buffer and in every other buffer of the layout
     if (o["editing"] == "VI" and o["mode"] == "vi-navigation" and not o["op"] and not o["digraph"]
-            and o["sel"] is None and o["kbuf"] == 0 and not o["done"] and 0 <= o["cur"] <= n):
-        t, c = o["text"], o["cur"]
-        line_start = t.rfind("\n", 0, c) + 1
-        line_end = t.find("\n", c)
-        line_end = n if line_end < 0 else line_end
-        if line_end > line_start and c == line_end:
-            bad.append(("Vi navigation mode: cursor %d rests past the last character of the non-empty line %r"
-                        % (c, t[line_start:line_end]), "vi-nav-cursor"))
+            and o["kbuf"] == 0 and not o["done"]):
+        cands = [(o["buf"], o["text"], o["cur"], o["sel"] is not None)] + list(o.get("others", []))
+        for name, t, c, has_sel in cands:
+            if has_sel or not (0 <= c <= len(t)):
+                continue
+            line_start = t.rfind("\n", 0, c) + 1
+            line_end = t.find("\n", c)
+            line_end = len(t) if line_end < 0 else line_end
+            if line_end > line_start and c == line_end:
+                bad.append(("Vi navigation mode: cursor %d of buffer %s rests past the last character of the non-empty line %r"
+                            % (c, name, t[line_start:line_end]), "vi-nav-cursor"))
     return bad
 
 
